@@ -316,7 +316,7 @@ func runHistoryCore(t *rapid.T, p *Profile) (*History, []Violation) {
 			for _, e := range p.PreBlock(h, g) {
 				// one governance message in three travels as a real proposal (gov.go): submitted and voted in this
 				// block, executed by the gov end-blocker of the block in which the voting period ends
-				if e.Kind == "gov_msg" && !p.NoRealGov && g.Int("gov/real?", 0, 2) == 0 {
+				if e.Kind == "gov_msg" && !p.NoRealGov && (e.Args["deliver"] == "proposal" || g.Int("gov/real?", 0, 2) == 0) {
 					var msg sdk.Msg
 					if err := h.W.App.AppCodec().UnmarshalInterfaceJSON([]byte(e.Args["msg"]), &msg); err == nil {
 						if err := h.W.SubmitProposal([]sdk.Msg{msg}, false); err == nil {
